@@ -6,7 +6,7 @@ use pkgsrc::{Depend, PkgName, PkgPath, ScanIndex};
 use proptest::prelude::*;
 use serde::{Deserialize, Serialize};
 use std::collections::BTreeMap;
-use std::io::{self, BufRead, BufReader, Read};
+use std::io::{self, BufReader, Read};
 use std::path::PathBuf;
 
 #[derive(Clone, Debug, Serialize, Deserialize)]
